@@ -6,6 +6,97 @@ from vlib import hx
 PROPS = "Props/Properties_C04.v"
 
 
+SOPS = ["contains", "icontains", "startswith", "istartswith", "endswith", "iendswith", "iequals", "==", "!=", "<", "<=", ">", ">="]
+
+
+def strop_part(chk, model, hscan):
+    """string operators on literals and string externals against Spec/StrOpSpec.v: operands built to overlap themselves
+    (needles whose prefix re-occurs inside them, haystacks with a partial occurrence right before the real one), case variants,
+    empty operands, one operand a prefix / suffix of the other"""
+    n = 120 if chk.tier == "quick" else 2000
+    cases, meta, mq = [], {}, []
+    for i in range(n):
+        r = chk.rng.fork()
+        alpha = r.choice([b"ab", b"aAbB", b"abc", b"wW.", b"abAB01"])
+
+        def word(lo, hi):
+            return bytes(r.choice(alpha) for _ in range(r.range(lo, hi)))
+        rules, atoms = [], []
+        exts = [word(0, 8).replace(b"\0", b"a"), word(1, 5)]
+        for k in range(6):
+            op = r.choice(SOPS)
+            needle = word(0, 4)
+            c = r.below(6)
+            if c == 0:
+                hay = word(0, 3) + needle[:-1] + needle + word(0, 3)          # a partial occurrence right before the real one
+            elif c == 1:
+                hay = needle[:max(0, len(needle) - 1)] * 2 + needle
+            elif c == 2:
+                hay = word(0, 2) + needle.swapcase() + word(0, 2)
+            elif c == 3:
+                hay = needle + word(0, 2) if r.chance(1, 2) else word(0, 2) + needle
+            elif c == 4:
+                hay = needle
+            else:
+                hay = word(0, 9)
+            a, b = hay, needle
+            ea = eb = None
+            if r.chance(1, 3):
+                exts[0] = a if 0 not in a and a else exts[0]
+                if exts[0] == a:
+                    ea = 0
+            if r.chance(1, 4) and b and 0 not in b:
+                exts[1] = b
+                eb = 1
+            # an external operand takes the value the external has at the end: evaluate with the final values
+            atoms.append((op, a, b, ea, eb, r.chance(1, 4)))
+        for k, (op, a, b, ea, eb, neg) in enumerate(atoms):
+            av = exts[ea] if ea is not None else a
+            bv = exts[eb] if eb is not None else b
+            ta = "exts%d" % ea if ea is not None else '"%s"' % rulegen.yara_escape(av)
+            tb = "exts%d" % eb if eb is not None else '"%s"' % rulegen.yara_escape(bv)
+            cond = "%s %s %s" % (ta, op, tb)
+            rules.append("rule s%d { condition: %s }" % (k, "not (%s)" % cond if neg else cond))
+            mq.append("strop %s %s %s" % (op, hx(av) if av else "-", hx(bv) if bv else "-"))
+            meta[(i, k)] = (cond, neg, av, bv)
+        src = "\n".join(rules)
+        cases.append(("s%d" % i, ["newcompiler", "defs exts0 " + hx(b"x"), "defs exts1 " + hx(b"y"), "add " + hx(src.encode()), "getrules", "scanner 0",
+                                  "sdefs exts0 " + hx(exts[0] or b""), "sdefs exts1 " + hx(exts[1]), "scan " + hx(b"zz")]))
+        meta[i] = (src, exts)
+    out, err = vlib.run_cases(hscan, cases, timeout=3000, args=["60"], jobs=16)
+    res, _ = vlib.run_lines(model, mq, timeout=3000)
+    st = {"atoms": 0, "agree": 0, "rejected_rule_sets": 0, "true_atoms": 0, "by_operator": {}}
+    pos = 0
+    for i in range(n):
+        lines = out.get("s%d" % i, [])
+        sc = [l for l in lines if l.startswith("scan msgs=")]
+        src, exts = meta[i]
+        if any(l.startswith("crash") for l in lines):
+            chk.violation("crash:strop", "evaluating string operators crashes: %s" % lines[-2:], {"rules": src, "externals": [e.decode("latin-1") for e in exts]})
+            pos += 6
+            continue
+        if not sc:
+            st["rejected_rule_sets"] += 1
+            pos += 6
+            continue
+        for k in range(6):
+            cond, neg, av, bv = meta[(i, k)]
+            want = (res[pos] == "1") != neg
+            pos += 1
+            got = ("M:default:s%d;" % k) in sc[0] or ("M:default:s%d:" % k) in sc[0]
+            st["atoms"] += 1
+            op = cond.split()[1] if not cond.startswith('"') else None
+            if got == want:
+                st["agree"] += 1
+                st["true_atoms"] += want
+            else:
+                chk.violation("strop:" + [o for o in SOPS if " %s " % o in cond][0], "%s%s with operands %r, %r: implementation %s, documented %s"
+                              % ("not " if neg else "", cond[:120], av, bv, got, want),
+                              {"rules": src, "externals_hex": [hx(e) for e in exts], "rule": "s%d" % k,
+                               "how": "h_scan: newcompiler; defs exts0 x; defs exts1 y; add <rules>; getrules; scanner 0; sdefs exts0 <hex>; sdefs exts1 <hex>; scan 7a7a"})
+    return st
+
+
 def run(chk):
     tier = chk.tier
     ok, log, st = vlib.proof_obligations(chk, PROPS)
@@ -147,6 +238,8 @@ def run(chk):
         else:
             agree += 1
             nontriv.add((trees[0][0], impl, len(buf) > 0))
+    sstat = strop_part(chk, model, hscan)
+    chk.note(string_operators=sstat)
     chk.note(evaluations=len(cases), distinct_nontrivial=len(nontriv), traces_validated_against_impl=agree, rejected_at_compile_time=rejected,
              operator_histogram=dict(sorted(opkinds.items(), key=lambda x: -x[1])[:40]),
              rule="random typed condition trees (depth <= 5, <= 3 nested loops, every operator kind, defined/undefined operands: reads past the "
